@@ -8,14 +8,32 @@ PUNCT = list('.,&+-*/<>=!?;:#$%@[]^`{|}~\\')
 IDENTS = ['x', 'Tommy', 'my', 'heart', 'Doctor', 'Feelgood', 'été', 'Ωmega', 'straße', 'İstanbul', 'x1', 'a_b',
           '_', '_x', 'it', "it's", "we're", "rock'n'roll", "'n'", "ain't", "Tommy's", "THEY'RE", "x''", "'", "''s",
           'ǅ', 'ß', 'ſ', 'K', 'ﬁ', '𝔘', '中文', 'é']
+IDENTS += ["İstanbul's", "GROẞ's", "\u212aelvin're", 'é' * 40, 'x' * 100, 'é' * 35 + "'s", 'a' + 'é' * 36,
+           'ab' + 'Ω' * 31 + '1', '_' + 'é' * 40]
 NUMBERS = ['0', '1', '5', '10', '3.14', '.5', '5.', '1e5', '1E5', '1e', '1.2.3', '5x', '٣', '½', '007', '1e400',
            '0x10', '9007199254740993', '1_0', '..', '.', '5.s', "5's", "5're", '12ab']
 STRINGS = ['"hello"', '""', '"a\nb"', '"unterminated', '"x"\'s', '"x"\'re', '"é"', '"(no comment)"', '"a\n\nb"\'s']
+STRINGS += ['"' + 'é' * 40 + '"', '"' + 'a' + 'Ω' * 40, '"' + 'x' * 300 + '"']
 COMMENTS = ['(c)', '()', '(a\nb)', '(unterminated', "(c)'s", "(c)'re", '(nested (x)', '("q")', "(a\nb)'s"]
 WS = [' ', ' ', ' ', '  ', '\t', '\r', '\r\n', '\n', '\n', '\n\n', ' ', ' ', '　', '\u0085', '\x0b', '\x0c']
 
 
+# characters that are neither letters, blanks nor ASCII punctuation: byte order mark, zero-width and format
+# characters, line/paragraph separators, controls, a combining mark, a non-character
+ODD = ['\ufeff', '\u200b', '\u00ad', '\u2028', '\u2029', '\x00', '\x7f', '\u200d', '\u0301', '\u2060', '\ufffe', '\U000e0001']
+
+
 def soup(rng, n=None):
+    t = soup_(rng, n)
+    r = rng.random()
+    if r < 0.04:
+        t = rng.choice(ODD) + t
+    elif r < 0.06:
+        t = rng.choice(WS + PUNCT) + t
+    return t
+
+
+def soup_(rng, n=None):
     """any mix of keywords, identifiers, digits, punctuation, apostrophes, quotes, parentheses,
     newlines, non-ASCII letters"""
     n = rng.randint(1, 25) if n is None else n
@@ -43,8 +61,10 @@ def soup(rng, n=None):
             parts.append(rng.choice(STRINGS))
         elif r < 0.82:
             parts.append(rng.choice(COMMENTS))
-        elif r < 0.92:
+        elif r < 0.90:
             parts.append(rng.choice(PUNCT) + (rng.choice(PUNCT) if rng.random() < 0.3 else ''))
+        elif r < 0.92:
+            parts.append(rng.choice(ODD))
         else:
             parts.append(rng.choice(['\n', '\n', 'else', 'Else\n', '\nelse\n']))
         if rng.random() < 0.85:
@@ -88,6 +108,22 @@ def mutate(rng, text):
             cut = rng.randrange(len(text) + 1)
             return text[:cut]
     return ''.join(toks)
+
+
+def token_prefixes(rng, text, limit=80):
+    """every prefix of a program that ends at a token boundary, without a final newline and with a trailing
+    blank / comment / ignorable punctuation (truncation at every point where the parser may run out of tokens)"""
+    toks = split_tokens(text)
+    out = []
+    acc = ''
+    for t in toks:
+        acc += t
+        if t.strip():
+            out.append(acc)
+            out.append(acc + rng.choice([' ', ' (c)', ' ?!', '\t', ' (open']))
+    if len(out) > limit:
+        out = rng.sample(out, limit)
+    return out
 
 
 def nested(rng, depth):
